@@ -2731,7 +2731,7 @@ class Deb822FileElement(Deb822Element):
         # Note the special case where the file ends on a comment; here we insert a whitespace too
         # to be sure.  Otherwise we would have to check that there is an empty line before that
         # comment and that is too much effort.
-        if tail_element:
+        if tail_element is not None:
             if not tail_element.convert_to_text().endswith("\n"):
                 # The file does not end on a newline; supply it first or the separator
                 # below would merely terminate the last line.
